@@ -48,6 +48,7 @@ psRes_t psVerifySig(psPool_t *pool,
 {
 # ifdef USE_RSA
     unsigned char out[SHA512_HASH_SIZE] = { 0 };
+    unsigned char *sigCopy = NULL;
 # endif
 # ifdef USE_ECC
     int32 eccRet;
@@ -86,13 +87,24 @@ psRes_t psVerifySig(psPool_t *pool,
         else
 #  endif /* USE_PKCS1_PSS */
         {
+            /* The RSA public key operation below works in place and
+               overwrites its input. Operate on a copy: the caller's
+               signature is const and must stay intact (e.g. X.509 chain
+               validation compares and re-verifies it afterwards). */
+            sigCopy = psMalloc(pool, sigLen);
+            if (sigCopy == NULL)
+            {
+                rc = PS_MEM_FAIL;
+                goto out;
+            }
+            Memcpy(sigCopy, sig, sigLen);
 
             if (opts && opts->msgIsDigestInfo)
             {
                 /* RSA PKCS 1.5 verification of TLS signed elements. */
                 rc = pubRsaDecryptSignedElementExt(pool,
                         &key->key.rsa,
-                        (unsigned char *) sig,
+                        sigCopy,
                         sigLen,
                         out,
                         msgInLen,
@@ -111,7 +123,7 @@ psRes_t psVerifySig(psPool_t *pool,
                 /* Standard RSA PKCS #1.5 verification. */
                 rc = psRsaDecryptPub(pool,
                         &key->key.rsa,
-                        (unsigned char *) sig,
+                        sigCopy,
                         sigLen,
                         out,
                         msgInLen,
@@ -183,6 +195,12 @@ psRes_t psVerifySig(psPool_t *pool,
     *verifyResult = PS_TRUE;
 
 out:
+# ifdef USE_RSA
+    if (sigCopy != NULL)
+    {
+        psFree(sigCopy, pool);
+    }
+# endif
     return rc;
 }
 
